@@ -173,7 +173,93 @@ theorem tamper_ciphertext_rejected (hP : PrimsLaw P) (hS : FieldSetting dec enc 
   rw [hnf] at this
   cases this
 
+/-! ### no sender authentication: the full "never a different payload" clause is FALSE
+
+An envelope is not signed. Whoever can derive the payload key — any holder of threshold+1 shares,
+i.e. any quorum of recipients — can seal ANOTHER payload under the envelope's own key, and the
+re-sealed envelope unseals to that payload for everybody (`resealed_payload_accepted`). Likewise a
+whole new envelope for the same recipients, context and (configured) id is a "modification" of
+every field but the id (engine class `rebuilt-same-id`; anyone who knows the recipients' public
+keys can make one).
+So the property's clause "any modification … either fails or still yields exactly the original
+payload" holds only in the parts proved above (`tamper_any_partial`); the full clause is refuted
+(`tamper_ciphertext_any_false`). Known finding `C18-unauthenticated-envelope`; the engine replays
+both witnesses on the real code every run. -/
+
+/-- **Insider re-seal**: the sealed envelope with its ciphertext replaced by a fresh AEAD sealing
+of ANY payload `p'` under the envelope's own derived key unseals to `p'` for every key list that
+unseals the original. -/
+theorem resealed_payload_accepted (hP : PrimsLaw P) (hS : FieldSetting dec enc (buildTotal keypairs.length cfg))
+    (hb : build P (fieldScalars K dec enc) secret coeff nonce ctx payload keypairs cfg = .ok env)
+    (hw : cfg.totalShares < 2 ^ 32 ∧ cfg.grants.length ≤ 2 ^ 32)
+    (nonce' p' : Bytes) (hn' : nonce'.length = 24) (sks : List Bytes)
+    (hreach : cfg.threshold + 1 ≤ reachCount (canOpen P keypairs sks) cfg.grants (buildTotal keypairs.length cfg)) :
+    ∃ r, unlock P (fieldScalars K dec enc) ctx
+      { env with ciphertext := nonce' ++ P.aseal (P.kdf (kdContext env.envelopeId ctx) (enc secret)) nonce' p' } sks =
+        .opened p' r := by
+  rw [unlock_build_ct_field dec enc P hP secret coeff nonce ctx payload keypairs cfg env hS hb hw sks]
+  rw [if_pos hreach]
+  unfold openWith
+  have htake : (nonce' ++ P.aseal (P.kdf (kdContext env.envelopeId ctx) (enc secret)) nonce' p').take 24 = nonce' := by
+    rw [← hn']; exact List.take_left
+  have hdrop : (nonce' ++ P.aseal (P.kdf (kdContext env.envelopeId ctx) (enc secret)) nonce' p').drop 24 =
+      P.aseal (P.kdf (kdContext env.envelopeId ctx) (enc secret)) nonce' p' := by
+    rw [← hn']; exact List.drop_left
+  rw [if_neg (by simp only [List.length_append, hn']; omega), htake, hdrop, hP.aead_roundtrip]
+  exact ⟨_, rfl⟩
+
+/-- **Partial (what does hold of "never a different payload")**: a modified envelope that still
+carries the sealed ciphertext yields the original payload or fails, whatever else was changed,
+under any context and keys; and a replaced ciphertext is accepted only if it opens under the key
+derived from the envelope's own secret. -/
+theorem tamper_any_partial (hP : PrimsSecure P) (hS : FieldSetting dec enc (buildTotal keypairs.length cfg))
+    (hb : build P (fieldScalars K dec enc) secret coeff nonce ctx payload keypairs cfg = .ok env)
+    (hn : nonce.length = 24) (hw : cfg.totalShares < 2 ^ 32 ∧ cfg.grants.length ≤ 2 ^ 32) :
+    (∀ (env' : Envelope), env'.ciphertext = env.ciphertext → ∀ (ctx' : Bytes) (sks : List Bytes) (p : Bytes) (r : UnlockResult),
+        unlock P (fieldScalars K dec enc) ctx' env' sks = .opened p r → p = payload) ∧
+    (∀ (c' : Bytes) (sks : List Bytes) (p' : Bytes) (r : UnlockResult),
+        unlock P (fieldScalars K dec enc) ctx { env with ciphertext := c' } sks = .opened p' r →
+        P.aopen (P.kdf (kdContext env.envelopeId ctx) (enc secret)) (c'.take 24) (c'.drop 24) = some p') :=
+  ⟨fun env' hct ctx' sks p r h =>
+      tamper_keeps_payload dec enc P secret coeff nonce ctx payload keypairs cfg env hP hb hn env' hct ctx' sks p r h,
+    fun c' sks p' r h =>
+      tamper_ciphertext dec enc P secret coeff nonce ctx payload keypairs cfg env hP.toPrimsLaw hS hb hw c' sks p' r h⟩
+
 end
+
+/-- the 2-of-2 configuration of the examples -/
+def exCfg : Config := { threshold := 1, grants := [⟨1, [0]⟩, ⟨1, [1]⟩] }
+
+/-- **Refuted**: "a sealed envelope whose payload ciphertext was replaced fails to unseal or still
+yields the original payload". Witness (toy primitives, ℤ/251): the envelope sealing `[2, 3]` for
+recipients `[10]`, `[11]`, with its ciphertext replaced by a sealing of `[4]` under its own
+derived key, unseals to `[4]` with both recipient keys. -/
+theorem tamper_ciphertext_any_false :
+    ¬ ∀ (env : Envelope) (c' : Bytes) (sks : List Bytes) (p : Bytes) (r : UnlockResult),
+      build toyPrims z251 5 (fun i => (i : ZMod 251) + 3) (List.replicate 24 9) [1] [2, 3] [[10], [11]] exCfg = .ok env →
+      unlock toyPrims z251 [1] { env with ciphertext := c' } sks = .opened p r → p = [2, 3] := by
+  intro h
+  have exSetting : FieldSetting z251Decode z251Encode (buildTotal 2 exCfg) :=
+    { codec := z251_law
+      ids := by
+        intro i j hi hj h
+        have e : buildTotal 2 exCfg = 2 := by decide
+        rw [e] at hi hj
+        have := (ZMod.natCast_eq_natCast_iff' i j 251).mp h
+        omega }
+  have hok : (build toyPrims z251 5 (fun i => (i : ZMod 251) + 3) (List.replicate 24 9) [1] [2, 3] [[10], [11]] exCfg).isOk = true := by
+    decide
+  cases hb : build toyPrims z251 5 (fun i => (i : ZMod 251) + 3) (List.replicate 24 9) [1] [2, 3] [[10], [11]] exCfg with
+  | err e => rw [hb] at hok; cases hok
+  | panic => rw [hb] at hok; cases hok
+  | ok env =>
+    have hb' := hb
+    rw [show z251 = fieldScalars (ZMod 251) z251Decode z251Encode from rfl] at hb'
+    obtain ⟨r, hr⟩ := resealed_payload_accepted z251Decode z251Encode toyPrims 5 _ _ [1] [2, 3] [[10], [11]] exCfg env
+      toyPrims_law exSetting hb' (by decide) (List.replicate 24 8) [4] (by decide) [[10], [11]] (by decide)
+    have := h env _ [[10], [11]] [4] r hb hr
+    revert this
+    decide
 
 /-! The defect the fix removed (F21), in the model: with de-duplication on the raw ID bytes
 (`rawKey`), a grant carrying two encodings (`[1]`, `[252]`) of one scalar makes
@@ -197,8 +283,6 @@ theorem canonical_dedup_no_panic :
 
 /-! Non-vacuity of the tamper theorems: a sealed envelope (ℤ/251, toy primitives); lowering its
 threshold to 0 still yields the payload; a foreign context is rejected. -/
-
-def exCfg : Config := { threshold := 1, grants := [⟨1, [0]⟩, ⟨1, [1]⟩] }
 
 example : ∃ env,
     build toyPrims z251 5 (fun i => (i : ZMod 251) + 3) (List.replicate 24 9) [1] [2, 3] [[10], [11]] exCfg = .ok env ∧
